@@ -189,6 +189,52 @@ Proof.
   cbn [fr_ok] in *. rewrite (own_view _ _ _ (ag_p _ _ _ A p)), Hu. assumption.
 Qed.
 
+(* a step that replaces the stepping thread's record; its blocks (held + frames) are conserved *)
+Lemma step_thread_only c t th' :
+  Inv c ->
+  th_backing th' = th_backing (gett c t) ->
+  (forall P, th_W P th' = th_W P (gett c t)) ->
+  (forall p, sum_fr (win_fr p) (th_stk th') = sum_fr (win_fr p) (th_stk (gett c t))) ->
+  (forall p, sum_fr (pw_fr p) (th_stk th') = sum_fr (pw_fr p) (th_stk (gett c t))) ->
+  (forall p, (cnt (onp p) (d1_stk (th_ret (gett c t)) (th_stk (gett c t))) <= cnt (onp p) (d1_stk (th_ret th') (th_stk th')))%nat
+             \/ (pg_flag (getp c p) <> NoD /\ pg_flag (getp c p) <> Freeing)) ->
+  (forall p h, absorbing (th_stk (gett c t)) p h = true -> absorbing (th_stk th') p h = true \/ mWin c p = 0%nat) ->
+  (forall h, hd_bottom (th_stk (gett c t)) h = true -> hd_bottom (th_stk th') h = true) ->
+  stk_ok (th_stk th') = true ->
+  forallb (fr_ok c t (gett c t)) (th_stk th') = true ->
+  hd_okP c th' ->
+  Inv (sett c t th').
+Proof.
+  intros I Hbk Hb Hw Hp Hd Ha Hbot Hs Hf Hh.
+  set (c' := sett c t th').
+  pose proof (i_wf _ I) as Hwf.
+  assert (A : agree t c c') by (apply agree_sett; assumption).
+  assert (Gt : gett c' t = th') by (unfold c'; rewrite gett_sett, N.eqb_refl; reflexivity).
+  constructor.
+  - apply wf_sett; assumption.
+  - apply (invA_conserve c); auto.
+    + intros P. unfold c'. rewrite mF_sett. pose proof (mW_sett c Hwf t th' P) as E. rewrite Hb in E. lia.
+    + intros p. unfold c'. rewrite getp_sett. destruct (a_count _ (i_A _ I) p) as [E _]. rewrite E. f_equal.
+      pose proof (mW_sett c Hwf t th' (onp p)) as E2. rewrite Hb in E2. unfold c'. lia.
+    + intros p. apply (a_local _ (i_A _ I)).
+  - apply (invB_same c); auto.
+    + intros p. pose proof (mWin_sett c Hwf t th' p) as E. rewrite Hw in E. unfold c'. lia.
+    + intros p. pose proof (mPw_sett c Hwf t th' p) as E. rewrite Hp in E. unfold c'. lia.
+    + intros p. pose proof (mD_sett c Hwf t th' (onp p)) as E.
+      destruct (Hd p) as [Hd'|Hd']; [left; unfold c'; lia|right; assumption].
+  - apply (invS_step c c' t); auto.
+    + intros t' Hne. unfold c'. rewrite gett_sett. apply N.eqb_neq in Hne. rewrite Hne. reflexivity.
+    + rewrite Gt. assumption.
+    + intros p. unfold c'. rewrite getp_sett. apply (s_dead _ (i_S _ I)).
+    + rewrite Gt. assumption.
+    + rewrite Gt. rewrite forallb_forall in Hf. apply forallb_forall. intros fr Hin.
+      rewrite (fr_ok_th c' t (gett c t)) by assumption.
+      apply (agree_used_same t c); [assumption|reflexivity| |apply Hf; assumption].
+      destruct fr; cbn; auto; pose proof (mWin_ge c t (fst b)) as G;
+        pose proof (sum_fr_In (win_fr (fst b)) _ _ Hin) as G'; cbn in G'; rewrite N.eqb_refl in G'; rewrite <- Hw in G; lia.
+    + rewrite Gt. apply (hd_okP_agree t c); auto.
+Qed.
+
 Lemma step_stack_only c t stk' ret' :
   Inv c ->
   (forall P, cnt P (stk_blocks stk') = cnt P (stk_blocks (th_stk (gett c t)))) ->
@@ -204,33 +250,38 @@ Lemma step_stack_only c t stk' ret' :
   Inv (sett c t (th_set (gett c t) stk' ret')).
 Proof.
   intros I Hb Hw Hp Hd Ha Hbot Hs Hf Hh.
-  set (th' := th_set (gett c t) stk' ret'). set (c' := sett c t th').
-  pose proof (i_wf _ I) as Hwf.
-  assert (A : agree t c c') by (apply agree_sett; assumption).
-  assert (Gt : gett c' t = th') by (unfold c'; rewrite gett_sett, N.eqb_refl; reflexivity).
-  constructor.
-  - apply wf_sett; assumption.
-  - apply (invA_conserve c); auto.
-    + intros P. unfold c'. rewrite mF_sett. pose proof (mW_sett c Hwf t th' P) as E.
-      unfold th_W in E. cbn [th_held th_stk th' th_set] in E. rewrite Hb in E. lia.
-    + intros p. unfold c'. rewrite getp_sett. destruct (a_count _ (i_A _ I) p) as [E _]. rewrite E. f_equal.
-      pose proof (mW_sett c Hwf t th' (onp p)) as E2.
-      unfold th_W in E2. cbn [th_held th_stk th' th_set] in E2. rewrite Hb in E2. unfold c'. lia.
-    + intros p. apply (a_local _ (i_A _ I)).
-  - apply (invB_same c); auto.
-    + intros p. pose proof (mWin_sett c Hwf t th' p) as E. cbn [th_stk th' th_set] in E. rewrite Hw in E. unfold c'. lia.
-    + intros p. pose proof (mPw_sett c Hwf t th' p) as E. cbn [th_stk th' th_set] in E. rewrite Hp in E. unfold c'. lia.
-    + intros p. pose proof (mD_sett c Hwf t th' (onp p)) as E. cbn [th_stk th_ret th' th_set] in E.
-      destruct (Hd p) as [Hd'|Hd']; [left; unfold c'; lia|right; assumption].
-  - apply (invS_step c c' t); auto.
-    + intros t' Hne. unfold c'. rewrite gett_sett. apply N.eqb_neq in Hne. rewrite Hne. reflexivity.
-    + rewrite Gt. reflexivity.
-    + intros p. unfold c'. rewrite getp_sett. apply (s_dead _ (i_S _ I)).
-    + rewrite Gt. assumption.
-    + rewrite Gt. cbn [th_stk th' th_set]. rewrite forallb_forall in Hf. apply forallb_forall. intros fr Hin.
-      rewrite (fr_ok_th c' t (gett c t)) by reflexivity.
-      apply (agree_used_same t c); [assumption|reflexivity| |apply Hf; assumption].
-      destruct fr; cbn; auto; pose proof (mWin_ge c t (fst b)) as G;
-        pose proof (sum_fr_In (win_fr (fst b)) _ _ Hin) as G'; cbn in G'; rewrite N.eqb_refl in G'; rewrite <- Hw in G; lia.
-    + rewrite Gt. apply (hd_okP_agree t c); auto.
+  apply step_thread_only; auto.
+  intros P. unfold th_W. cbn [th_held th_stk th_set]. rewrite Hb. reflexivity.
+Qed.
+
+(* ------------------------------------------------------------------------------------------ *)
+(* fr_ok is monotone in the components it reads                                               *)
+(* ------------------------------------------------------------------------------------------ *)
+Definition rf_cond (c : cfg) (b : bid) (h : N) : bool :=
+  pg_alive (getp c (fst b)) && hown (geth c h) (pg_tid (getp c (fst b)))
+  && (oN_eqb (pg_heap (getp c (fst b))) (Some h) || absorbing (th_stk (gett c (pg_tid (getp c (fst b))))) (fst b) h).
+Definition hd3_cond (c : cfg) (t h bk : N) (p : N) : bool :=
+  own (getp c p) t && (oN_eqb (pg_heap (getp c p)) (Some h) || oN_eqb (pg_heap (getp c p)) (Some bk)).
+
+Lemma fr_ok_mono c c' t th f :
+  (forall q, own (getp c q) t = true -> own (getp c' q) t = true /\ pg_used (getp c' q) = pg_used (getp c q)) ->
+  (forall h, hown (geth c h) t = true -> hown (geth c' h) t = true /\ hp_backing (geth c' h) = hp_backing (geth c h)) ->
+  (forall h b, hown (geth c h) t = true -> del_ok c h b = true -> del_ok c' h b = true) ->
+  (forall b h, rf_cond c b h = true -> rf_cond c' b h = true) ->
+  (forall h bk p, hown (geth c h) t = true -> hd3_cond c t h bk p = true -> hd3_cond c' t h bk p = true) ->
+  fr_ok c t th f = true -> fr_ok c' t th f = true.
+Proof.
+  intros Ho Hh Hd Hr H3.
+  assert (Hdl : forall h l, hown (geth c h) t = true -> forallb (del_ok c h) l = true -> forallb (del_ok c' h) l = true).
+  { intros h l Hw. apply forallb_impl. intros x. apply Hd. assumption. }
+  assert (Ho1 : forall q, own (getp c q) t = true -> own (getp c' q) t = true) by (intros q H; apply Ho; assumption).
+  assert (Hh1 : forall h, hown (geth c h) t = true -> hown (geth c' h) t = true) by (intros h H; apply Hh; assumption).
+  destruct f; cbn [fr_ok]; auto; try (apply Hr); intros H; rewrite ?andb_true_iff in H;
+    repeat match goal with H : _ /\ _ |- _ => destruct H end;
+    rewrite ?andb_true_iff; repeat split; auto.
+  - (* PF used *) destruct (Ho p H) as [_ ->]. assumption.
+  - (* HD2 backing *) destruct (Hh h H) as [_ ->]. assumption.
+  - destruct (Hh h H) as [_ ->]. assumption.
+  - (* HD3 pages *) revert H0. apply forallb_impl. intros x. apply (H3 h bk x H).
+  - destruct (Hh h H) as [_ ->]. assumption.
 Qed.
